@@ -302,6 +302,19 @@ pub fn c01(c: &Collector, g: &mut Guard) {
                     n += 1;
                 }
             }
+            // empty feed() calls around and inside the word (chars and bytes)
+            {
+                let chars: Vec<char> = w.chars().collect();
+                let cut = chars.len() / 2;
+                let (a1, a2): (String, String) = (chars[..cut].iter().collect(), chars[cut..].iter().collect());
+                for chunks in [vec![String::new(), w.clone()], vec![w.clone(), String::new()], vec![a1.clone(), String::new(), a2.clone()]] {
+                    pr.case(|| format!("chars 5x3 empty chunk {}", esc(&w)));
+                    char_case(cc, 5, 3, &chunks, true, "E5.words.empty-chunks", &mut outcomes);
+                    let bch: Vec<Vec<u8>> = chunks.iter().map(|x| x.as_bytes().to_vec()).collect();
+                    stream_case(cc, 5, 3, &bch, true, "E5.words.empty-chunks", &mut outcomes);
+                    n += 2;
+                }
+            }
             if w.chars().count() == 1 {
                 for &(cols, lines) in &[(80u32, 24u32), (140, 40)] {
                     stream_case(cc, cols, lines, &[w.as_bytes().to_vec()], true, "E5.words.bytes", &mut outcomes);
@@ -409,6 +422,16 @@ pub fn c01(c: &Collector, g: &mut Guard) {
                 if mask == 0 {
                     stream_case(cc, 3, 2, &chunks, false, "E5.bytes", &mut outcomes);
                     n += 1;
+                }
+                // a feed() may be empty: before, between and after the non-empty ones
+                if chunks.len() <= 2 {
+                    for pos in 0..=chunks.len() {
+                        let mut ce = chunks.clone();
+                        ce.insert(pos, vec![]);
+                        pr.case(|| format!("bytes 5x3 (empty chunk at {}) {}", pos, ce.iter().map(|x| hex(x)).collect::<Vec<_>>().join("|")));
+                        stream_case(cc, 5, 3, &ce, true, "E5.bytes.empty-chunks", &mut outcomes);
+                        n += 1;
+                    }
                 }
             }
             if w.len() < nb {
